@@ -106,8 +106,8 @@ def parseDateTime (p : Option Bytes) (res : Transition) : Option Bytes × Transi
                   match parseInt (q2.drop 1) Gen.posix_weekday_lo Gen.posix_weekday_hi with
                   | none => (none, res)
                   | some (q3, weekday) => (some q3, { res with date := some ⟨.M, month, week, weekday⟩ })
-                else (some q2, res)     -- `p` stays non-null, the date is not written
-            else (some q1, res)         -- `p` stays non-null, the date is not written
+                else (none, res)        -- `p = nullptr`: missing ".weekday"
+            else (none, res)            -- `p = nullptr`: missing ".week.weekday"
         else if peek q = 74 then -- 'J'
           match parseInt (q.drop 1) Gen.posix_jday_lo Gen.posix_jday_hi with
           | none => (none, res)
@@ -116,7 +116,7 @@ def parseDateTime (p : Option Bytes) (res : Transition) : Option Bytes × Transi
           match parseInt q Gen.posix_nday_lo Gen.posix_nday_hi with
           | none => (none, res)
           | some (q1, day) => (some q1, { res with date := some ⟨.N, day, 0, 0⟩ })
-      else (some q, res)                -- no ',' : nothing parsed, the date is not written
+      else (none, res)                  -- `p = nullptr`: the ",date" part is not optional
   match p with
   | none => (none, res)
   | some q =>
@@ -131,6 +131,7 @@ def parseDateTime (p : Option Bytes) (res : Transition) : Option Bytes × Transi
 def parsePosixSpec (spec : Bytes) : Option TimeZone :=
   let p := cstr spec
   if peek p = 58 then none else       -- ':'
+  if spec.contains 0 then none else   -- spec.find('\0') != npos
   let res : TimeZone := {}
   -- p = ParseAbbr(p, &res->std_abbr); p = ParseOffset(p, 0, 24, -1, &res->std_offset);
   match parseAbbr p with
